@@ -150,18 +150,18 @@ type fnNode struct {
 	acc        []accSite
 	calls      []*callSite
 	// summaries
-	isRoot     bool
-	rootKind   string // api | dep | out | init | go | cb
-	reachIn    bool
-	reachDep   bool
-	reachOut   bool
-	entryX     map[string]bool // nil = top
-	entryS     map[string]bool
-	entryTop   bool
-	prepubAll  bool
-	initOnly   bool
-	threads    map[string]bool
-	numLits    int
+	isRoot    bool
+	rootKind  string // api | dep | out | init | go | cb
+	reachIn   bool
+	reachDep  bool
+	reachOut  bool
+	entryX    map[string]bool // nil = top
+	entryS    map[string]bool
+	entryTop  bool
+	prepubAll bool
+	initOnly  bool
+	threads   map[string]bool
+	numLits   int
 }
 
 type accessAnalysis struct {
@@ -174,10 +174,10 @@ type accessAnalysis struct {
 	unknown  []string
 	assumed  []string
 	// function value flow
-	flow     map[string][]string  // slot -> source slots
-	flowVal  map[string][]*fnNode // slot -> function values
-	dynCalls []*dynCall
-	goTargets map[*fnNode][]*callSite
+	flow       map[string][]string  // slot -> source slots
+	flowVal    map[string][]*fnNode // slot -> function values
+	dynCalls   []*dynCall
+	goTargets  map[*fnNode][]*callSite
 	unresolved []string
 }
 
@@ -280,16 +280,16 @@ func isFuncType(t types.Type) bool {
 // walker: one per function body
 
 type walker struct {
-	a       *accessAnalysis
-	fn      *fnNode
-	eff     *lockEff
-	fresh   map[types.Object]bool // currently unpublished freshly allocated locals
-	everFresh map[types.Object]bool
+	a             *accessAnalysis
+	fn            *fnNode
+	eff           *lockEff
+	fresh         map[types.Object]bool // currently unpublished freshly allocated locals
+	everFresh     map[types.Object]bool
 	pendingEscape []types.Object
-	loopDepth int
-	ctxStack []*ctxFrame // enclosing loops / switches / selects
-	deferred map[string]bool // mutexes with a deferred Unlock / RUnlock
-	litDepth int             // inside an inlined function literal
+	loopDepth     int
+	ctxStack      []*ctxFrame     // enclosing loops / switches / selects
+	deferred      map[string]bool // mutexes with a deferred Unlock / RUnlock
+	litDepth      int             // inside an inlined function literal
 }
 
 type ctxFrame struct {
@@ -2121,16 +2121,16 @@ func (r accessRow) key() string {
 }
 
 type accessSiteOut struct {
-	File   string `json:"file"`
-	Line   int    `json:"line"`
-	Fn     string `json:"fn"`
-	Class  string `json:"class"`
-	Write  bool   `json:"write"`
-	Atomic bool   `json:"atomic"`
-	Locks  string `json:"locks"`
-	Prepub bool   `json:"prepub"`
-	Considered bool `json:"considered"`
-	ClassOK bool  `json:"class_ok"`
+	File       string `json:"file"`
+	Line       int    `json:"line"`
+	Fn         string `json:"fn"`
+	Class      string `json:"class"`
+	Write      bool   `json:"write"`
+	Atomic     bool   `json:"atomic"`
+	Locks      string `json:"locks"`
+	Prepub     bool   `json:"prepub"`
+	Considered bool   `json:"considered"`
+	ClassOK    bool   `json:"class_ok"`
 }
 
 func sortedKeys(m map[string]bool) []string {
